@@ -701,77 +701,102 @@ def accessor_contracts(prog):
 
 
 # ------------------------------------------------------------------ ITE cache adapters (ν = is_compl_choice)
+def _is_flag(c):
+    c = strip(c)
+    while isinstance(c, tuple) and c and c[0] in ("deref", "ref"):
+        c = strip(c[1])
+    return mir.is_call(c, "is_compl_choice")
+
+
+def _specialise(t, flag):
+    """resolve every choice on is_compl_choice(..) in t for the given value of the flag"""
+    def go(x):
+        if not isinstance(x, tuple) or not x:
+            return x
+        if x[0] == "gamma":
+            ba = bool_arms(x)
+            if ba and _is_flag(ba[0]):
+                return go(ba[2] if flag else ba[1])
+            if ba:
+                c = strip(ba[0])
+                if isinstance(c, tuple) and c and c[0] == "const" and str(c[2]) in ("0", "1", "false", "true"):
+                    return go(ba[2] if str(c[2]) in ("1", "true") else ba[1])
+                if isinstance(c, tuple) and c and c[0] == "un" and c[1] == "Not" and _is_flag(c[2]):
+                    return go(ba[1] if flag else ba[2])
+        if x[0] == "call":
+            return (x[0], x[1], tuple(go(a) for a in x[2])) + tuple(x[3:])
+        return tuple(go(a) if isinstance(a, tuple) else a for a in x)
+    return go(t)
+
+
+def _parity(t, res):
+    """0 when t is res, 1 when it is neg(res) (an even / odd number of negations), else None"""
+    t = strip(t)
+    n = 0
+    while True:
+        while isinstance(t, tuple) and t and t[0] in ("deref", "ref"):
+            t = strip(t[1])
+        if mir.is_call(t, "neg") and t[2]:
+            n ^= 1
+            t = strip(t[2][0])
+            continue
+        break
+    r = strip(res)
+    while isinstance(r, tuple) and r and r[0] in ("deref", "ref"):
+        r = strip(r[1])
+    return n if t == r else None
+
+
 def ite_adapters(prog):
+    """the ITE tables keep results for the uncomplemented standard triple: for each value of the triple's complement
+    flag, the number of negations applied on the way in equals the number applied on the way out, and a complemented
+    triple does negate.  Helpers and Option combinators are looked through; the flag is resolved to each value."""
     out = []
+
+    def helper_ok(h):
+        return "builder::cache" in h.npath and "{closure" not in h.npath and h.name not in ("is_compl_choice", "neg")
+
     for adt in ("builder::cache::all_app::AllIteTable", "builder::cache::lru_app::LruIteTable"):
         ins = prog.find1(name="insert", self_adt=adt, unit="rsdd-lib")
         get = prog.find1(name="get", self_adt=adt, unit="rsdd-lib")
-        # stored value: gamma(is_compl_choice(ite); 0 -> res, 1 -> neg(res))
+        key = "%s:compl-flag" % adt
         te = ins.terms
         stored = None
         for cs in te.calls:
-            if cs.callee.name == "insert" and cs is not None and len(cs.args) >= 3 and not cs.callee.key().endswith("IteTable>::insert"):
+            if cs.callee.name == "insert" and len(cs.args) >= 3 and not cs.callee.key().endswith("IteTable>::insert"):
                 stored = cs.args[2]
-        wr = parity_by_flag(stored, ("param", 3))
-        if wr is None:
-            wr = _through_helper(prog, stored, ("param", 3))
-        # read value
+        wr, rd = {}, {}
+        why = []
+        if stored is None:
+            why.append("no insertion into the backing table found")
+        else:
+            st = canon.inline_local(prog, stored, helper_ok)
+            for flag in (0, 1):
+                p_ = _parity(_specialise(st, flag), ("param", 3))
+                if p_ is None:
+                    why.append("stored value %s" % show(_specialise(st, flag))[:60])
+                else:
+                    wr[flag] = p_
         tg = get.terms
-        kids = {k.npath: k for k in prog.children(get)}
-        rd = {}
-        for t in mir.subterms(tg.ret):
-            ba = bool_arms(t)
-            if ba and mir.is_call(strip(ba[0]), "is_compl_choice"):
-                for flag, arm in ((0, ba[1]), (1, ba[2])):
-                    a = strip(arm)
-                    neg = False
-                    if mir.is_call(a, "map") and len(a[2]) == 2:
-                        clo = strip(a[2][1])
-                        if clo[0] == "agg" and clo[1] == "closure" and clo[2] in kids:
-                            r = strip(kids[clo[2]].terms.ret)
-                            neg = mir.is_call(r, "neg")
-                    rd[flag] = 1 if neg else 0
-                break
-        if len(rd) != 2:
-            # `r.map(|v| ite.helper(v))` with a helper that negates iff the triple is complemented
-            for x in mir.subterms(tg.ret):
-                if mir.is_call(x, "map") and len(x[2]) == 2:
-                    clo = strip(x[2][1])
-                    if clo[0] == "agg" and clo[1] == "closure" and clo[2] in kids:
-                        r_ = strip(kids[clo[2]].terms.ret)
-                        arg = None
-                        if r_[0] == "call":
-                            for a_ in r_[2]:
-                                a0 = strip(a_)
-                                while a0[0] == "deref":
-                                    a0 = strip(a0[1])
-                                if a0 == ("param", 2):
-                                    arg = strip(a_)
-                        hp = _through_helper(prog, r_, arg) if arg is not None else None
-                        if hp:
-                            rd = dict(hp)
-        if len(rd) != 2:
-            # no branch on the flag at all: the table value is returned the same way for both kinds of triple
-            def neg_map(a):
-                a = strip(a)
-                if mir.is_call(a, "map") and len(a[2]) == 2:
-                    clo = strip(a[2][1])
-                    if clo[0] == "agg" and clo[1] == "closure" and clo[2] in kids:
-                        return mir.is_call(strip(kids[clo[2]].terms.ret), "neg")
-                return False
-            table_reads = [x for x in mir.subterms(tg.ret) if mir.is_call(x, "get") or mir.is_call(x, "map")]
-            if table_reads:
-                k_ = 1 if any(neg_map(x) for x in table_reads) else 0
-                rd = {0: k_, 1: k_}
-        key = "%s:compl-flag" % adt
-        if wr is None:
-            wr0 = strip(stored) if stored is not None else None
-            if wr0 == ("param", 3):
-                wr = {0: 0, 1: 0}
-            elif mir.is_call(wr0, "neg") and strip(wr0[2][0]) == ("param", 3):
-                wr = {0: 1, 1: 1}
-        if wr is None or len(rd) != 2:
-            out.append(inst("CP", key, UNDECIDED, ins, None, "adapter shape not recognised (write %s, read %s)" % (wr, rd)))
+        rt = canon.inline_local(prog, tg.ret, helper_ok)
+        for flag in (0, 1):
+            outs = canon.option_outcomes(prog, tg, _specialise(rt, flag))
+            if not outs:
+                why.append("returned value %s" % show(_specialise(rt, flag))[:60])
+                continue
+            ps = set()
+            for o in outs:
+                o = _specialise(canon.inline_local(prog, o, helper_ok), flag)
+                base = [x for x in mir.subterms(o) if canon.is_payload(x) and mir.is_call(strip(x[1][1]), "get")]
+                if not base:
+                    continue   # an answer that does not come from the table (a constant triple)
+                ps.add(_parity(o, base[0]))
+            if len(ps) == 1 and None not in ps:
+                rd[flag] = ps.pop()
+            else:
+                why.append("returned value %s" % [show(o)[:50] for o in outs])
+        if len(wr) != 2 or len(rd) != 2:
+            out.append(inst("CP", key, UNDECIDED, ins, None, "adapter shape not recognised (write %s, read %s; %s)" % (wr, rd, "; ".join(why)[:160])))
             continue
         errs = []
         for flag in (0, 1):
@@ -783,46 +808,6 @@ def ite_adapters(prog):
             errs.append("the complement flag of the standard triple is not applied on insert")
         out.append(inst("CP", key, VIOLATION if errs else OK, ins, None,
                         "; ".join(errs) if errs else "complement flag applied symmetrically: insert negates iff get negates"))
-    return out
-
-
-def _through_helper(prog, t, res):
-    """t = H(.., res, ..) with H a local helper whose result is γ(is_compl_choice(self); res', neg(res')): flag parity"""
-    t = strip(t) if t is not None else None
-    if not (isinstance(t, tuple) and t and t[0] == "call" and (t[1].local or t[1].res_local)):
-        return None
-    pos = None
-    for i, a in enumerate(t[2]):
-        a0 = strip(a)
-        while isinstance(a0, tuple) and a0 and a0[0] == "deref":
-            a0 = strip(a0[1])
-        r0 = strip(res)
-        while isinstance(r0, tuple) and r0 and r0[0] == "deref":
-            r0 = strip(r0[1])
-        if a0 == r0:
-            pos = i + 1
-    hs = [g for g in prog.lib_fns if g.name == t[1].name and "{closure" not in g.npath and "cache::ite" in g.npath]
-    if pos is None or len(hs) != 1:
-        return None
-    return parity_by_flag(hs[0].terms.ret, ("param", pos))
-
-
-def parity_by_flag(t, res):
-    """t = gamma(flag; 0->x, 1->y) with x,y in {res, neg(res)}: returns {0: k, 1: k}"""
-    if t is None:
-        return None
-    ba = bool_arms(strip(t))
-    if not ba:
-        return None
-    out = {}
-    for flag, arm in ((0, ba[1]), (1, ba[2])):
-        a = strip(arm)
-        if a == res:
-            out[flag] = 0
-        elif mir.is_call(a, "neg") and strip(a[2][0]) == res:
-            out[flag] = 1
-        else:
-            return None
     return out
 
 
